@@ -5,9 +5,31 @@
 //   var $err = null; try { $deferred = []; $curGoroutine.deferStack.push($deferred); BODY
 //   } catch(err) { $err = err; [return 0;] } finally { $callDeferred($deferred, $err); [if (!$curGoroutine.asleep) { return r; }] }
 // A script is the mini-language of GV.Model.Defer (see GV/Driver/C08.lean for the syntax).
+const fs = require('fs');
+const path = require('path');
 module.exports = function (repo, loadPrelude) {
   const { P } = loadPrelude(repo);
   P('$jsErrorPtr = function(o) { this.Object = o; this.$val = this; }');
+  P('$checkForDeadlock = false');
+  // shapes the compiler emits, read from its source text so that the harness follows the tree it is pointed at:
+  //  - the forwarding method (functions.go proxyFunction): function(...$args) { ... return RECV.NAME(...$args); ... }
+  //  - the callable pushed for `defer recover()` (expressions.go delegatedCall)
+  const fsrc = fs.readFileSync(path.join(repo, 'compiler', 'functions.go'), 'utf8');
+  const pm = /fun := fmt\.Sprintf\("(function\(\.\.\.\$args\) \{[^"]*\})", receiver, funName\)/.exec(fsrc);
+  if (!pm) throw new Error('cannot extract proxyFunction from functions.go');
+  const proxyTemplate = pm[1];
+  if (!/%s\.%s\(\.\.\.\$args\)/.test(proxyTemplate)) throw new Error('unexpected proxyFunction shape: ' + proxyTemplate);
+  const esrc = fs.readFileSync(path.join(repo, 'compiler', 'expressions.go'), 'utf8');
+  const rm = /fun\.Name == "recover" \{[\s\S]{0,400}?return fc\.formatExpr\("(function\(\) \{[^"]*\})"\)/.exec(esrc);
+  const deferRecoverCallable = rm ? rm[1] : 'function() { $recover(); }';
+  //  - the body of runtime.Goexit (compiler/natives/src/runtime/runtime.go)
+  const rsrc = fs.readFileSync(path.join(repo, 'compiler', 'natives', 'src', 'runtime', 'runtime.go'), 'utf8');
+  const gm = /func Goexit\(\) \{([\s\S]*?)\n\}/.exec(rsrc);
+  if (!gm) throw new Error('cannot find runtime.Goexit');
+  let goexitBody;
+  if (/js\.Global\.Call\("\$goexit"\)/.test(gm[1])) goexitBody = '$goexit();';
+  else if (/Set\("exit", true\)/.test(gm[1]) && /Call\("\$throw", nil\)/.test(gm[1])) goexitBody = '$curGoroutine.exit = true; $throw(null);';
+  else throw new Error('unexpected runtime.Goexit body: ' + gm[1]);
   function how(h, f) {
     if (h === 'd') return 'F[' + f + ']';
     if (h === 'm') return '$methodExpr(TY, "f' + f + '")';
@@ -20,7 +42,7 @@ module.exports = function (repo, loadPrelude) {
     for (const t of stmts) {
       if (t === '') continue;
       const k = t[0];
-      if (t === 'R') { hasDefer = true; body.push('$deferred.push([function() { $recover(); }, []]);'); }
+      if (t === 'R') { hasDefer = true; body.push('$deferred.push([' + deferRecoverCallable + ', []]);'); }
       else if (t === 'r') body.push('x = $recover(); T.push(x === $ifaceNil ? "rec-" : "rec" + V(x));');
       else if (t === 't') body.push('return r.v;');
       else if (t === 'g') body.push('Goexit();');
@@ -52,23 +74,24 @@ module.exports = function (repo, loadPrelude) {
     }
     src += 'TY.prototype["f' + i + '"] = F[' + i + '];\n';
     // forwarding method as the compiler generates for pointer receivers of non-struct named types / promoted methods
-    src += 'PW[' + i + '] = function(...$args) { return F[' + i + '](...$args); };\n';
+    src += 'PW[' + i + '] = ' + proxyTemplate.replace('%s.%s(...$args)', 'F[' + i + '](...$args)') + ';\n';
     return src;
   }
   function compile(prog) {
     const funcs = prog.split('|');
     let src = '(function() {\n var T = [], F = [], PW = [], TY = function() {}, RECV = new TY();\n' +
       ' var V = function(x) { if (x.constructor === $String) { return x.$val; } if (x.Object !== undefined) { return x.Object.message; } return "?"; };\n' +
-      ' var Goexit = function Goexit$1() { $curGoroutine.exit = true; $throw(null); };\n';
+      ' var Goexit = function Goexit$1() { ' + goexitBody + ' };\n';
     funcs.forEach((f, i) => {
       const [k, b] = f.split(':');
       src += compileFunc(i, k === 'n', (b || '').split(','));
     });
+    // the goroutine is started by the REAL $go / $schedule / $goroutine (goroutines.js:128-167)
     src += ' return function() {\n' +
-      '  var g = { asleep: false, exit: false, deferStack: [], panicStack: [] }, out;\n' +
-      '  $curGoroutine = g; $panicStackDepth = null; $stackDepthOffset = 0;\n' +
-      '  try { (function $goroutine() { F[0](0, {v: 0}); })(); out = "normal"; }\n' +
-      '  catch (err) { if (g.exit) { out = "goexit"; } else if (err instanceof Error) { out = "panic" + err.message; } else if (err === null) { out = "stuck1"; } else { out = "stuck?" + String(err); } }\n' +
+      '  var g = null, out, done = false;\n' +
+      '  $panicStackDepth = null; $stackDepthOffset = 0; $curGoroutine = $noGoroutine; $scheduled.length = 0;\n' +
+      '  try { $go(function() { g = $curGoroutine; F[0](0, {v: 0}); done = true; }, []); out = done ? "normal" : "goexit"; }\n' +
+      '  catch (err) { if (err instanceof Error) { out = "panic" + err.message; } else if (err === null) { out = "stuck1"; } else { out = "stuck?" + String(err); } }\n' +
       '  finally { $curGoroutine = $noGoroutine; }\n' +
       '  return { trace: T, out: out, state: "off=" + $stackDepthOffset + " psd=" + $panicStackDepth + " ps=" + g.panicStack.length + " ds=" + g.deferStack.length };\n' +
       ' };\n})()';
